@@ -654,6 +654,11 @@ Definition normalise_field (base : str) (st : res settings) (tkv : tyclass * (st
   let (t, kv) := tkv in
   match snd kv, t with
   | PNone, _ => Ok st
+  | _, _ =>
+  (* copy_subdir holds names of subdirectories of the page directories, not paths *)
+  if seqb (fst kv) (s "copy_subdir") then Ok st else
+  match snd kv, t with
+  | PNone, _ => Ok st
   | _, TListPath =>
     match py_iter (sget (fst kv) st) with
     | Some l => do l' <- mapM (normalise_value (fst kv) base) l; Ok (sset (fst kv) (PList l') st)
@@ -661,6 +666,7 @@ Definition normalise_field (base : str) (st : res settings) (tkv : tyclass * (st
     end
   | v, t => if is_path_ty t then do v' <- normalise_value (fst kv) base v; Ok (sset (fst kv) v' st)
             else Ok st
+  end
   end.
 
 (* normalise_paths; [base] is the absolute project directory, [ford_dir] the package directory *)
